@@ -242,6 +242,11 @@ class Measure(Contract):
         cl.append(Clause("C18", "one-outcome-entry-per-specified-object", keys_ok,
                          f"reported {sorted(res)}, specified {sorted(ms)} (optional {sorted(opt)}) {foreign}"))
         ms = [m for m in ms + opt if m in res] + [m for m in ms if m not in res]
+        # C04 / C14: the draws of one call are independent only if each consumes its own key
+        ks = [tuple(np.array(d["key"]).reshape(-1).tolist()) for d in draws]
+        cl.append(Clause("C04", "every-draw-of-the-call-consumes-a-fresh-key", len(set(ks)) == len(ks),
+                         f"{len(ks)} draws, {len(set(ks))} distinct keys: later outcomes are copies of the first draw's randomness"))
+        cl.append(Clause("C14", "every-draw-of-the-call-consumes-a-fresh-key", len(set(ks)) == len(ks), f"{len(ks)} draws, {len(set(ks))} distinct keys"))
         # C04: every draw is the Born distribution of a not yet measured specified subsystem, conditioned on earlier outcomes
         todo = [m for m in ms if m in res]
         cond = rho
